@@ -45,14 +45,16 @@ def to_case(o):
     if o["k"] == "reuse":
         return "KReuse x%02x %s %s %s %s %s %s" % (o["typ"], c01.le(o["msize"]), c01.segs(bytes.fromhex(o["wire"])), c01.cvals(o["old"]),
                                                     "true" if o["reused"] else "false", c01.res(o["rec"]), c01.res(o["fresh"]))
+    if o["k"] == "cut":
+        return "KCut %s %s %s %s" % (c01.le(o["msize"]), c01.segs(bytes.fromhex(o["wire"])), c01.res(o["a"]), c01.res(o["b"]))
     return "KSrv %s %s" % (c01.cvals(o["sent"]), c01.cvals(o["seen"]))
 
 
 def run(ctx):
     from concurrent.futures import ThreadPoolExecutor
-    rc, out, obs = ctx.gotest("p9", "^TestVerifC18$", ["vh_common_test.go", "c01_codec_test.go", "c18_reuse_test.go"], timeout=900)
+    rc, out, obs = ctx.gotest("p9", "^TestVerifC18$", ["vh_common_test.go", "vhcl_common_test.go", "c01_codec_test.go", "c01_conn_test.go", "c18_reuse_test.go"], timeout=900)
     regobs = [o for o in obs if o["k"] == "registry"]
-    obs = [o for o in obs if o["k"] in ("reuse", "srv")]
+    obs = [o for o in obs if o["k"] in ("reuse", "srv", "cut")]
     if rc != 0 or not obs or not regobs:
         # a panic in the scenario (wrong reply type, backend call count) ends the test: observations so far are still evaluated
         ctx.harness_broken("harness TestVerifC18 failed (rc=%d)" % rc, out)
@@ -95,7 +97,10 @@ def run(ctx):
             ctx.harness_broken("%d observations do not fit the schema of field paths" % len(badi), str(obs[si * SHARD + badi[0]])[:400])
         for i in vlib.coq_nat_list(r["P"]):
             o = obs[si * SHARD + i]
-            if o["k"] == "reuse":
+            if o["k"] == "cut":
+                ctx.violation("C18:cut:%d" % o["typ"],
+                              "a frame cut mid-body was turned into different results after different earlier messages (pooled buffer content carried over)", o)
+            elif o["k"] == "reuse":
                 ctx.violation("C18:reuse:%d" % o["typ"],
                               "a message decoded into a recycled object differs from the same frame decoded alone (content carried over from the previous message)", o)
             else:
